@@ -369,18 +369,29 @@ func (c *Collector) cleanup(now int64) {
 			time int64
 		}
 		var ages []endpointAge
+		var tracked int
 		c.endpoints.Range(func(url string, data *endpointData) bool {
+			tracked++
+			// an endpoint with attempts in flight is in use, however long ago it was first
+			// touched: dropping its record would lose the connections it is counting
+			if atomic.LoadInt64(&data.activeConnections) > 0 {
+				return true
+			}
 			ages = append(ages, endpointAge{url, atomic.LoadInt64(&data.lastUsed)})
 			return true
 		})
 		sort.Slice(ages, func(i, j int) bool {
 			return ages[i].time < ages[j].time
 		})
-		remove := len(ages) - MaxTrackedEndpoints + 100
-		for i := 0; i < remove && i < len(ages); i++ {
+		// evict the least recently used records beyond the limit, not the whole table
+		remove := tracked - MaxTrackedEndpoints
+		if remove > len(ages) {
+			remove = len(ages)
+		}
+		for i := 0; i < remove; i++ {
 			c.endpoints.Delete(ages[i].url)
 		}
-		c.logger.Debug("Cleaned up old endpoint stats", "removed", remove, "remaining", len(ages)-remove)
+		c.logger.Debug("Cleaned up old endpoint stats", "removed", remove, "remaining", tracked-remove)
 	}
 }
 
